@@ -16,11 +16,11 @@ open S3V S3V.Secrets S3V.Gen.Emit S3V.C16
 def leakyCrypto : Crypto := { hmac256 := fun k _ => k, hmac1 := fun k _ => k, hex := id, b64 := id }
 
 def req : AuthReq :=
-  { scheme := .v2, pre := none, accessKey := [65], date := [], region := [], service := [],
+  { scheme := .v2, pre := none, preInsideCheck := false, accessKey := [65], date := [], region := [], service := [],
     stringToSign := [71, 69, 84], provided := [120], logsStringToSign := false }
 
 /-- both secrets reject the request, yet the emissions differ (in field `signature` of the mismatch record) -/
-theorem C16_counterexample_mismatch_log : ¬ C16_noninterference_full := by
+theorem C16_counterexample_mismatch_log : ¬ C16_noninterference_full true := by
   intro h
   have := h leakyCrypto (fun _ => some [1]) (fun _ => some [2]) req (by decide)
   revert this
